@@ -71,7 +71,7 @@ def _run_one(path, func, tier, cond_timeout, path_timeout, twin):
     res["verdict"] = "confirmed"
   elif re.search(r": error: ", out):
     res["verdict"] = "counterexample"
-    mm = re.search(r"when calling (\w+\(.*?\))(?: \(which (?:returns|raises).*)?$", out, re.M | re.S)
+    mm = re.search(r"when calling (\w+\(.*?\))(?: with crosshair\.patch_to_return\(.*?\))?(?: \(which (?:returns|raises).*)?$", out, re.M | re.S)
     res["call"] = mm.group(1).strip() if mm else None
     res["message"] = re.search(r": error: (.*)", out).group(1)[:500]
   elif "Unable to meet precondition" in out:
@@ -103,7 +103,11 @@ def native_call(path, call):
   ns.setdefault("nan", float("nan"))
   ns.setdefault("inf", float("inf"))
   try:
-    r = eval(call, ns)
+    code = compile(call, "<call>", "eval")
+  except SyntaxError as e:
+    return False, "counterexample text could not be parsed: %s" % (e,)
+  try:
+    r = eval(code, ns)
   except Exception as e:
     allowed = getattr(mod, "ALLOWED_EXC", ())
     if isinstance(e, allowed):
@@ -199,3 +203,101 @@ def replay_cmd(pid, path):
     return 1
   print("not reproduced property=%s %s -> %s" % (pid, w["call"], detail))
   return 0
+
+
+# ---------------------------------------------------------------------------------------------
+# enumerated obligations: the same harness functions over finite argument domains, enumerated by the z3
+# AllSAT loop (used where every argument is realised anyway - text handed to C parsers, indices - and
+# CrossHair's realise-and-retry costs 100x more than a native call)
+
+def _enum_shard(harness_path, func, domains, fixed, max_s):
+  import enumz3
+  common.setup_path()
+  sys.path.insert(0, os.path.join(common.VERIF, "props"))
+  os.environ["VERIF_NATIVE"] = "1"
+  mod = load_harness(harness_path)
+  fn = getattr(mod, func)
+  names = list(domains)
+  prune = getattr(mod, "PRUNE", {}).get(func)
+
+  def body(h):
+    kw = dict(fixed)
+    for n in names:
+      if n not in kw:
+        kw[n] = h.choice(n, domains[n])
+      # optional pruning: PRUNE[func](partial kwargs) -> False once the arguments read so far already fall outside the
+      # obligation's precondition; the blocked cube then covers every completion of them
+      if prune is not None and not prune(kw):
+        return {"nontrivial": False, "violations": []}
+    try:
+      ok = fn(**kw)
+      detail = "returned %r" % (ok,)
+    except Exception as e:
+      allowed = getattr(mod, "ALLOWED_EXC", ())
+      ok = isinstance(e, allowed)
+      detail = "raised %s: %s" % (type(e).__name__, str(e)[:200])
+    call = "%s(%s)" % (func, ", ".join("%s=%r" % (k, kw[k]) for k in kw))
+    viol = []
+    if not ok:
+      tag = None
+      if hasattr(mod, "classify"):
+        try:
+          tag = mod.classify(func, [], kw)
+        except Exception:
+          tag = "unclassified"
+      # one witness per class (tag) and at most a handful of untagged ones per shard: each is replayed in a subprocess
+      key = tag or "untagged%d" % min(len([k for k in seen if k.startswith("untagged")]), 4)
+      if key not in seen:
+        seen.add(key)
+        viol.append({"call": call, "detail": detail, "tag": tag})
+      counts[tag or "untagged"] = counts.get(tag or "untagged", 0) + 1
+    return {"nontrivial": True, "violations": viol, "sample": call}
+  seen, counts = set(), {}
+  res = enumz3.allsat(body, max_s=max_s)
+  return {"func": func, "runs": res.runs, "exhaustive": res.exhaustive, "outputs": res.outputs, "errors": res.errors,
+          "samples": res.samples[:2], "solver_s": res.solver_s, "queries": res.queries, "violating_runs": counts}
+
+
+def run_enum(pid, harness_path, specs, ev):
+  """specs: [{func, domains: {arg: [values]}, shard_by: arg|None, max_s, desc}] -> (violations, harness)"""
+  tasks = []
+  for sp in specs:
+    if sp.get("shard_by"):
+      for v in sp["domains"][sp["shard_by"]]:
+        tasks.append((harness_path, sp["func"], sp["domains"], {sp["shard_by"]: v}, sp.get("max_s")))
+    else:
+      tasks.append((harness_path, sp["func"], sp["domains"], {}, sp.get("max_s")))
+  results = common.pmap(_enum_shard, tasks)
+  violations, harness, rows = [], [], {}
+  replayed = set()
+  for t, (st, r) in zip(tasks, results):
+    if st != "ok":
+      harness.append("enumerated obligation %s failed: %s" % (t[1], str(r)[:600]))
+      continue
+    row = rows.setdefault(r["func"], {"obligation": r["func"], "mode": "enumerated (z3 AllSAT, native calls)", "runs": 0, "exhaustive": True,
+                                      "samples": r["samples"]})
+    row["runs"] += r["runs"]
+    row["exhaustive"] = row["exhaustive"] and r["exhaustive"]
+    for k_, n_ in r.get("violating_runs", {}).items():
+      row.setdefault("violating_runs", {})[k_] = row.get("violating_runs", {}).get(k_, 0) + n_
+    for e in r["errors"]:
+      harness.append("enumerated obligation %s: %s" % (r["func"], str(e)[-400:]))
+    for o in r["outputs"]:
+      for v in o["violations"]:
+        if (r["func"], v.get("tag")) in replayed and v.get("tag"):
+          continue
+        replayed.add((r["func"], v.get("tag")))
+        w = {"engine": "E1", "harness": os.path.relpath(harness_path, common.VERIF), "call": v["call"], "func": r["func"]}
+        p = common.save_replay(pid, w)
+        rp = subprocess.run([os.path.join(common.VERIF, "vcheck"), "replay", pid, p], capture_output=True, text=True, timeout=300)
+        if rp.returncode == 1:
+          sig = {"pid": pid, "obligation": r["func"], "call": v["call"]}
+          mt = re.search(r"TAG=(\S+)", rp.stdout)
+          if mt:
+            sig["tag"] = mt.group(1)
+          violations.append({"sig": sig, "msg": "%s -> %s" % (v["call"], v["detail"]), "witness": w})
+        else:
+          harness.append("enumerated counterexample %s did not reproduce: %s" % (v["call"], (rp.stdout + rp.stderr)[-200:]))
+          os.remove(p)
+  ev.cov["enumerated_obligations"] = list(rows.values())
+  return violations, harness
